@@ -124,4 +124,7 @@ Proof.
   specialize (H (-1) 18446744073709551615). unfold in_range_ty, wrap_ty, int_shape in H. simpl in H.
   specialize (H ltac:(lia) eq_refl). destruct p; vm_compute in H; discriminate.
 Qed.
+(* the repaired i32 -> u64 (fixes/C23-cast-i32-u64-sign-extend.diff): sign extension is exact *)
+Theorem cast_i32_u64_exts : cast_row c I32 U64 CvExtS PNone.
+Proof. cast_tac. Qed.
 End Casts.
